@@ -48,6 +48,10 @@ def oracle_atoms(atoms):
     pending = []              # pre-states of the effective undos not yet redone and not yet discarded by a snapshot
     for i, a in enumerate(atoms):
         pre, post, kind = a["pre"], a["post"], a["kind"]
+        if kind == "reset":
+            # Buffer.reset / a new prompt: a new session; its history starts here
+            past, last_landing, prev_effective_undo, pending = [], None, None, []
+            continue
         past.append(pre)
         if kind == "undo":
             if post != pre:
@@ -114,8 +118,9 @@ def oracle_groups(events):
             i += 1
             continue
         j = i
-        while j + 1 < n and keyed[j + 1][1]["binding_id"] == e["binding_id"]:
-            j += 1
+        while (j + 1 < n and keyed[j + 1][1]["binding_id"] == e["binding_id"]
+               and not any(events[q]["kind"] == "reset" for q in range(keyed[j][0], keyed[j + 1][0]))):
+            j += 1      # (a new prompt ends the run: KeyProcessor.reset forgets the previous handler)
         pos_j = keyed[j][0]
         pre, post = e["pre"], keyed[j][1]["post"]
         k = pos_j + 1
@@ -145,6 +150,7 @@ def impl_buffer_case(case):
     _, text, cur, ops = case
     b = Buffer(document=Document(unS(text), cur))
     out, atoms = [], []
+    start = unS(text)    # the text the current session (since the last reset) started with
     safe = True          # the side condition of C07_reaches_start, observed on the implementation
     for op in ops:
         pre = (b.text, b.cursor_position)
@@ -160,6 +166,10 @@ def impl_buffer_case(case):
             elif op[0] == 2:
                 b.undo()
                 kind = "undo"
+            elif op[0] == 4:
+                b.reset(Document(unS(op[1]), op[2]))
+                kind = "reset"
+                start, safe = unS(op[1]), True
             else:
                 b.redo()
                 kind = "redo"
@@ -175,20 +185,20 @@ def impl_buffer_case(case):
     for _ in range(len(b._undo_stack) + 1):
         b.undo()
     final = b.text
-    return out, atoms, safe, final
+    return out, atoms, safe, final, start
 
 
 def buffer_cases(chk):
     rng = chk.rng
     thorough = chk.tier == "thorough"
     states = [("", 0), ("a", 0), ("a", 1), ("b", 1)]
-    ops = [[1, sv, S(t), c] for sv in (0, 1) for (t, c) in states] + [[2], [3]]
+    ops = [[1, sv, S(t), c] for sv in (0, 1) for (t, c) in states] + [[2], [3], [4, S(""), 0], [4, S("b"), 1]]
     cases = []
     dist = {"buffer_exhaustive": 0, "buffer_random": 0}
     maxlen = 4
     for n in range(1, maxlen + 1):
         for seq in itertools.product(ops, repeat=n):
-            if n == maxlen and not thorough and rng.random() > 0.15:
+            if n == maxlen and not thorough and rng.random() > 0.10:
                 continue
             for (t, c) in ([("", 0), ("a", 1)] if n == maxlen else states):
                 cases.append([0, S(t), c, [list(o) for o in seq]])
@@ -202,10 +212,13 @@ def buffer_cases(chk):
             if r < 0.45:
                 u = rng.choice(pool)
                 seq.append([1, 1 if rng.random() < 0.7 else 0, S(u), rng.randint(0, len(u))])
-            elif r < 0.8:
+            elif r < 0.76:
                 seq.append([2])
-            else:
+            elif r < 0.93:
                 seq.append([3])
+            else:
+                u = rng.choice(pool)
+                seq.append([4, S(u), rng.randint(0, len(u))])
         cases.append([0, S(t), rng.randint(0, len(t)), seq])
         dist["buffer_random"] += 1
     return cases, dist
@@ -293,6 +306,8 @@ class Sess:
         self.buf = s.default_buffer
         self.buf.reset(Document(text, cursor))
         self._enter(set_app(self.app))
+        # what run_async gives the application for one prompt: a future that exit() resolves
+        self.app.future = asyncio.get_event_loop().create_future()
         self.kp = self.app.key_processor
         self.bindings = gen_t_c07.live_bindings(self.app)
         self.index = {id(b): i for i, b in enumerate(self.bindings)}
@@ -352,7 +367,11 @@ class Sess:
             if id(handler) not in self._rows:
                 self._rows[id(handler)] = gen_t_c07.row_of(handler)
             row, keys, name = self._rows[id(handler)]
-            rec = {"kind": "key", "h": idx, "row": row, "name": name, "keys": keys, "binding_id": id(handler),
+            raw = kp.arg
+            arg = -1 if raw == "-" else int(raw or 1)
+            if arg >= 1000000:
+                arg = 1
+            rec = {"kind": "key", "h": idx, "row": row, "name": name, "keys": keys, "binding_id": id(handler), "arg": arg,
                    "role": row[2], "saves": 0, "undos": [], "pre": self.state(), "binding": handler, "nav": False}
             self.cur = rec
             try:
@@ -404,6 +423,28 @@ class Sess:
             self.ended = "focus left the default buffer"
             return False
         return True
+
+    def new_prompt(self, how, text, cursor):
+        """End the current prompt and start the next one on the same session,
+        with the calls PromptSession.prompt()/Application.run_async make.
+        how = 'accept': the accept-line key (its handler calls app.exit);
+        how = 'task': app.exit() without any key (a background task, a timeout)."""
+        from prompt_toolkit.document import Document
+        ok = True
+        if how == "accept":
+            ok = self.feed(_tok("Keys.Escape", ("Keys.ControlM", "\r")))
+            if not self.app.is_done:
+                how = "task"
+        if how == "task" and not self.app.is_done:
+            self.app.exit(result=None)
+        self.ended = None
+        pre = self.state()
+        self.buf.reset(Document(text, cursor))     # PromptSession.prompt(): self.default_buffer.reset(...)
+        self.app.reset()                           # Application.run_async -> _pre_run -> self.reset()
+        self.app.future = asyncio.get_event_loop().create_future()
+        self.events.append({"kind": "reset", "how": how, "pre": pre, "post": self.state(),
+                            "ustack": list(self.buf._undo_stack), "rstack": list(self.buf._redo_stack)})
+        return self.app.current_buffer is self.buf
 
     def direct_redo(self):
         pre = self.state()
@@ -457,10 +498,17 @@ async def run_key_case(spec):
         for _ in range(6):
             await asyncio.sleep(0)
         init = s.state()
+        first = init
         ok = True
         for t in spec["tokens"]:
             if t == "!redo":
                 s.direct_redo()
+                continue
+            if isinstance(t, list) and t[0] == "!new":
+                ok = s.new_prompt(t[1], t[2], t[3])
+                if not ok:
+                    break
+                init = s.state()
                 continue
             ok = s.feed(toks[t])
             if not ok:
@@ -477,7 +525,7 @@ async def run_key_case(spec):
                     break
                 ok = s.feed(undo_tok)
             exhausted = ok and not s.buf._undo_stack
-        res = {"init": init, "events": s.events, "problems": s.problems, "ended": s.ended,
+        res = {"init": init, "first": first, "events": s.events, "problems": s.problems, "ended": s.ended,
                "exhausted": exhausted, "final": s.state(), "nbindings": len(s.bindings)}
         try:
             await s.app.cancel_and_wait_for_background_tasks()
@@ -504,13 +552,18 @@ def run_key_case_sync(spec):
 
 def key_case_to_model(res):
     """-> (case sx, impl result sx, atoms)"""
-    init = res["init"]
+    init = res["first"]
     evs, out, atoms = [], [], []
     for e in res["events"]:
         if e["kind"] == "redo":
             evs.append([2])
             out.append([0, [0, S(e["post"][0]), e["post"][1], stack_sx(e["ustack"]), stack_sx(e["rstack"])]])
             atoms.append({"kind": "redo", "pre": e["pre"], "post": e["post"], "redo_len_after": len(e["rstack"])})
+            continue
+        if e["kind"] == "reset":
+            evs.append([5, S(e["post"][0]), e["post"][1]])
+            out.append([0, [0, S(e["post"][0]), e["post"][1], stack_sx(e["ustack"]), stack_sx(e["rstack"])]])
+            atoms.append({"kind": "reset", "pre": e["pre"], "post": e["post"], "redo_len_after": len(e["rstack"])})
             continue
         if e["kind"] == "cpr" or e["role"] == 7:
             # a terminal report, however the key processor chose to deliver it: the model's Cpr event
@@ -521,7 +574,8 @@ def key_case_to_model(res):
             continue
         if e["row"][1] == 1:
             # an undo key: the model computes the whole effect (n undo() calls + Vi cursor fix-up)
-            evs.append([3, e["h"], len(e["undos"]), 1 if e.get("nav") else 0])
+            # (the count typed before the key goes in; how often undo() runs is the handler model's business)
+            evs.append([3, e["h"], e["arg"], 1 if e.get("nav") else 0])
         else:
             evs.append([1, e["h"], len(e["undos"]), S(e["post"][0]), e["post"][1]])
         out.append([1 if e["saves"] else 0, [0, S(e["post"][0]), e["post"][1], stack_sx(e["ustack"]), stack_sx(e["rstack"])]])
@@ -549,6 +603,9 @@ def rand_tokens(rng, mode, n):
         r = rng.random()
         if r < 0.06:
             out.append("!redo")
+        elif r < 0.085:
+            t = rng.choice(["", "abc", "two\nlines", "x y"])
+            out.append(["!new", rng.choice(["task", "task", "accept"]), t, rng.randint(0, len(t))])
         elif r < 0.10 and mode == "vi":
             out += ["multi", "a", "b", "a", "esc"]
         elif r < 0.13:
@@ -571,6 +628,15 @@ def key_specs(chk):
         ("emacs", "", 0, ["a", "sp", "b", "c-w", "undo", "!redo", "a", "!redo"]),
         ("emacs", "abc", 0, ["del", "del", "undo", "!redo", "undo"]),
         ("emacs", "x", 1, ["M-3", "a", "undo2", "undo2"]),
+        # several prompts on one session: ended by a task or by the accept key; undo/redo as last and first operations
+        ("emacs", "abc", 3, ["a", "b", ["!new", "task", "xyz", 3], "a", "b", "undo"]),
+        ("emacs", "abc", 3, ["a", "b", ["!new", "accept", "xyz", 3], "a", "b", "undo", "!redo"]),
+        ("emacs", "hello", 5, ["bs", "bs", ["!new", "task", "world", 5], "bs", "bs", "undo", "undo"]),
+        ("emacs", "", 0, ["a", "b", "sp", "c-w", "undo", "undo", ["!new", "task", "q", 1], "!redo", "a", "!redo", "undo"]),
+        ("emacs", "", 0, ["a", "c-w", "undo", ["!new", "accept", "q", 1], "!redo", "undo", ["!new", "task", "", 0], "undo", "!redo"]),
+        ("vi", "", 0, ["a", "b", ["!new", "task", "xyz", 0], "a", "b", "esc", "u"]),
+        ("vi", "one two", 0, ["esc", "x", "x", "u", ["!new", "task", "three", 2], "!redo", "esc", "x", "u", "!redo", "!redo"]),
+        ("vi", "ab\ncd", 0, ["multi", "a", "b", ["!new", "task", "ef\ngh", 0], "multi", "a", "b", "esc", "u"]),
         # terminal reports arriving between the keys of a run / inside a key sequence
         ("emacs", "", 0, ["a", "b", "cpr", "a", "b", "undo"]),
         ("emacs", "hello!", 5, ["bs", "cpr", "bs", "cpr", "cpr", "bs", "undo", "undo"]),
@@ -663,7 +729,7 @@ def main(tier):
         chk.violation("oracle", "%s: %s [%s]" % (clause, describe_atom(atoms[at]) if at is not None else "", how[:160]), tags, rep)
 
     for c in bcases:
-        out, atoms, safe, final = with_watchdog(lambda: impl_buffer_case(c), 10)
+        out, atoms, safe, final, start = with_watchdog(lambda: impl_buffer_case(c), 10)
         i = len(cases)
         cases.append(c)
         impl_results.append(out)
@@ -671,10 +737,10 @@ def main(tier):
         bad = oracle_atoms(atoms)
         if bad is None and any(o[0] for o in out):
             bad = ("Document assertion fired inside undo/redo", "assert", None)
-        if bad is None and safe and final != unS(c[1]):
-            bad = ("repeated undo ended on %r, the session started with %r" % (final, unS(c[1])), "reaches-start", None)
+        if bad is None and safe and final != start:
+            bad = ("repeated undo ended on %r, the session (since the last reset) started with %r" % (final, start), "reaches-start", None)
         if bad:
-            report(i, c, atoms, bad, "Buffer(Document(text,cursor)); ops (1 save text cursor)=save_to_undo_stack?+set_document, (2)=undo(), (3)=redo()")
+            report(i, c, atoms, bad, "Buffer(Document(text,cursor)); ops (1 save text cursor)=save_to_undo_stack?+set_document, (2)=undo(), (3)=redo(), (4 text cursor)=reset(Document)")
         if i % 1499 == 0:
             chk.sample({"kind": "buffer", "text": unS(c[1]), "cursor": c[2], "ops": c[3][:5], "impl_result": out[:2]})
 
@@ -709,6 +775,9 @@ def main(tier):
                 continue
             if e["kind"] == "cpr":
                 kstats["reports_delivered"] = kstats.get("reports_delivered", 0) + 1
+                continue
+            if e["kind"] == "reset":
+                kstats["new_prompts_" + e["how"]] = kstats.get("new_prompts_" + e["how"], 0) + 1
                 continue
             if e["role"] == 7:
                 chk.violation("tie", "a cursor position report was dispatched through _call_handler (process_keys must hand it to _handle_cpr_response)",
@@ -746,7 +815,7 @@ def main(tier):
             kstats["reach_start_checked"] += 1
             if res["final"][0] != res["init"][0]:
                 oracle_bad.add(i)
-                chk.violation("oracle", "repeated undo ended on %r, the session started with %r [%s]" % (res["final"][0], res["init"][0], how[:200]),
+                chk.violation("oracle", "repeated undo ended on %r, the prompt started with %r [%s]" % (res["final"][0], res["init"][0], how[:200]),
                               {"clause": "reaches-start", "mode": spec["mode"]}, {"case": sx_norm(case), "spec": spec, "how": how})
         if spec["src"] == "scenario" or i % 211 == 0:
             chk.sample({"kind": "keys", "mode": spec["mode"], "text": spec["text"], "tokens": spec["tokens"][:12],
@@ -869,6 +938,9 @@ def replay(data):
         for e in res["events"]:
             if e["kind"] == "redo":
                 print("  Buffer.redo(): %r -> %r" % (e["pre"], e["post"]))
+            elif e["kind"] == "reset":
+                print("  -- prompt ended (%s); next prompt: Buffer.reset + Application.reset: %r -> %r  undo_stack=%r redo_stack=%r" % (
+                    e["how"], e["pre"], e["post"], e["ustack"], e["rstack"]))
             elif e["kind"] == "cpr":
                 print("  <cursor position report> via _handle_cpr_response: %r -> %r" % (e["pre"], e["post"]))
             else:
@@ -889,15 +961,15 @@ def replay(data):
         print("model agrees" if m == sx_norm(out) else "model differs")
     elif "case" in rep and rep["case"] and rep["case"][0] == 0:
         case = rep["case"]
-        out, atoms, safe, final = impl_buffer_case(case)
+        out, atoms, safe, final, start = impl_buffer_case(case)
         for op, o, a in zip(case[3], out, atoms):
             print("  op %r: %s  undo_stack=%r redo_stack=%r" % (op, describe_atom(a), o[3], o[4]))
         bad = oracle_atoms(atoms)
         if bad:
             print("ORACLE FAILS: %s" % bad[0])
             rc = 1
-        if safe and final != unS(case[1]):
-            print("ORACLE FAILS: repeated undo ended on %r" % final)
+        if safe and final != start:
+            print("ORACLE FAILS: repeated undo ended on %r, session started with %r" % (final, start))
             rc = 1
         m = run_model("c07", [case])[0]
         print("model agrees" if m == sx_norm(out) else "model differs: %r" % (m,))
